@@ -4,7 +4,7 @@
    specification and proofs: Chain/ChainProofs.v. *)
 From Coq Require Import String.
 From Verif Require Import Base Fmap.
-From Verif.Chain Require Import Chain ChainProofs Zero.
+From Verif.Chain Require Import Chain ChainProofs Zero Emit.
 Open Scope list_scope.
 
 (* Compose, any number of stages: if stage k is the first to fail (with e) when every earlier
@@ -133,3 +133,18 @@ Theorem C16_zero_named_basic_refuted :
   /\ lit_ok (zero_literal_pinned ty_named_string) ty_named_string = false.
 Proof. exact zero_named_basic_refuted. Qed.
 Print Assumptions C16_zero_named_basic_refuted.
+
+(* the comma lists compose prints (variables / zero values / results, then the error): the
+   repaired printer is right for every number of values, 0 included *)
+Theorem C16_emit_list_spec : forall (ss : list string) (last : string),
+  list_fixed ss last = String.concat ", " (ss ++ [last]).
+Proof. exact emit_list_spec. Qed.
+Print Assumptions C16_emit_list_spec.
+
+(* the pinned printer started the list with a comma for a stage that only returns an error
+   (the finding repaired by repo-patches/C16-fix-compose-no-results.patch) *)
+Theorem C16_compose_no_results_refuted :
+  list_pinned [] "err0" = ", err0"%string
+  /\ list_pinned [] "err0" <> String.concat ", " ([] ++ ["err0"%string]).
+Proof. exact compose_no_results_refuted. Qed.
+Print Assumptions C16_compose_no_results_refuted.
